@@ -7,6 +7,16 @@ ALL = ["C%02d" % i for i in range(1, 21)]
 
 # property id -> (level category, level text, level note, technique, design ref)
 CHECKS = {
+ "C14": ("exploration",
+         "Go race detector plus a sequential-consistency oracle over stress rounds: each round builds a fresh cold String- or File-backed engine (DNS, web, MatchAll, cosmetic), releases 2..32 goroutines on a request multiset with few distinct keys, and perturbs the schedule at the hook points (cache miss/insert, between Seek and read, before regexp.Compile, pool get/put) with yields, microsecond sleeps or a rendezvous that holds the first goroutine at a miss/seek/compile point until a second one reaches the same point and key. Race reports are parsed after every round; every concurrent answer must equal the sequential answer of a separate engine; the evidence reports overlapping miss windows, rendezvous met and the number of distinct miss/insert orders observed, and a run that observed no overlap is inconclusive.",
+         "Only the schedules the Go scheduler produces under perturbation are seen; the race detector sees only executed accesses; answers are compared as sorted text multisets.",
+         "Go race detector + schedule perturbation at hook points + per-operation sequential-answer oracle",
+         "DESIGN.md section 4, C14"),
+ "C19": ("fault_enumeration",
+         "Fault enumeration: for every query history (10..60 queries with repeats) EVERY fault point k in 0..n times every fault kind (storage Close, closed descriptor, directory descriptor whose reads fail with EISDIR) is executed on a rebuilt file-backed DNS or network engine; after the fault no panic, result subset of the fault-free String-backed twin, every returned rule individually matches, and every rule materialised before the fault (tracked through the storage.insert hook and GetCacheSize) is still served.",
+         "Fault kinds are the three listed; real EIO on read and Close concurrent with queries are explored in the thorough tier only; with a subset of rules the selected basic rule may differ from the fault-free one.",
+         "runtime fault injection at every history position with subset/served-from-cache oracle",
+         "DESIGN.md section 4, C19"),
  "C01": ("exploration",
          "Differential execution of the indexed engine against a linear scan of independently parsed rule objects: generated pools that mix all three index paths, hash-colliding 5-byte windows and $domain values, wildcard domains, duplicates and inert lines, each inserted in several permutations / splits / list ids, queried with requests aimed at the rules and at the index edge cases (shortcut at the very end, 0..5-byte URLs, repeated windows, > 4 KiB); plus the three bundled real lists against real requests. Hook counters prove that bucket hits that Match then rejects were reached.",
          "NetworkRule.Match defines 'individually matches' (its correctness is C03/C04/C05); results compared as sets of rule texts; pools and requests are sampled.",
